@@ -133,7 +133,7 @@ impl Property for C19 {
         // one case in six (if no signal is bidirectional) goes through a .dig document: the
         // lines are still counted from the start of the test's own source text
         let via_dig = tch.chance(1, 6) && !built.sigs.iter().any(|s| matches!(s.kind, Kind::Bidir(_)));
-        let r = render(&lines, &mut Ch::new(&s[1]), if via_dig { LayoutOpts { crlf: false, ..LayoutOpts::ALL } } else { LayoutOpts::ALL });
+        let r = render(&lines, &mut Ch::new(&s[1]), LayoutOpts::ALL);
         let mut dch = Ch::new(&s[2]);
         let mut spec = gen_spec(
             &mut dch,
